@@ -19,6 +19,8 @@ def handle (j : Json) : Except String Json := do
   | "fusion" => Driver.fusion j
   | "da" => Driver.da j
   | "hoist" => Driver.hoist j
+  | "ft_op" => Driver.ftOp j
+  | "ft_fiber" => Driver.ftFiber j
   | "nest" => Driver.nest j
   | "legality" => Driver.legality j
   | "parse_spec" => Driver.parseSpec j
